@@ -283,6 +283,9 @@ def iterdicts(dicts, header, sample, missing):
         # discover fields
         header = list()
         peek, it = iterpeek(it, sample)
+        if sample == 1:
+            # iterpeek(it, 1) returns the first item itself, not a list
+            peek = [peek]
         for o in peek:
             if hasattr(o, 'keys'):
                 header += [k for k in o.keys() if k not in header]
